@@ -221,6 +221,46 @@ int main(void)
 '''
 
 
+# ------------------------------------------------------------------------------------------------ learner_t::evaluate
+# targets_iterator_t::loop(callback) (C09: once per chunk, the chunks tile [0, #samples), each carries the targets of exactly that chunk); errors_values,
+# samples = the lambda's captures BY NAME; @CALL = the extracted lambda body (inlined)
+LE_LOOP = r'''
+  __CPROVER_assume(nv_e_looped < 1000); nv_e_looped = nv_e_looped + 1;
+  int64_t n = errors_values->cols, b = 0;
+  uint64_t by = nv_obj->by;
+  nv_e_pred = 0; nv_e_cell[0] = 0; nv_e_cell[1] = 0; nv_e_ok[0] = 0; nv_e_ok[1] = 0; nv_e_kind[0] = 0; nv_e_kind[1] = 0;
+  while (b < n)
+  __CPROVER_assigns(b, nv_id_counter, nv_e_pred, nv_e_pred_w, nv_e_pred_b, nv_e_pred_by, nv_e_pred_out, nv_e_pred_pos, __CPROVER_object_whole(nv_e_cell), __CPROVER_object_whole(nv_e_kind), __CPROVER_object_whole(nv_e_ok), errors_values->w, errors_values->b, errors_values->by)
+  __CPROVER_loop_invariant(0 <= b && b <= n && n == errors_values->cols && errors_values->rows == 2 && samples->n == n && samples->b == 0 && samples->id == by)
+  __CPROVER_loop_invariant((0 <= nv_g && nv_g < b) ? (nv_e_pred == 1 && nv_e_pred_w == NV_THIS_MODEL && nv_e_pred_by == by && nv_e_pred_pos == nv_g && nv_e_cell[0] == 1 && nv_e_kind[0] == 1 && nv_e_ok[0] && nv_e_cell[1] == 1 && nv_e_kind[1] == 2 && nv_e_ok[1]) : (nv_e_pred == 0 && nv_e_cell[0] == 0 && nv_e_cell[1] == 0))
+  __CPROVER_loop_invariant(b > 0 ==> (errors_values->w == NV_THIS_MODEL && errors_values->b == NV_THIS_MODEL && errors_values->by == by))
+  __CPROVER_decreases(n - b)
+  {
+    int64_t e = nv_nondet_int64_t(); __CPROVER_assume(b < e && e <= n);
+    struct nv_range r; r.b = b; r.e = e;
+    struct nv_lt tg = nv_lt_zero();
+    tg.by = nv_obj->by; tg.cb = b; tg.ce = e; tg.rows = e - b; tg.id = nv_nondet_uint64_t();
+    uint64_t tnum = nv_nondet_uint64_t();
+    @CALL(&r, tnum, tg);
+    b = e;
+  }
+'''
+
+
+def learner_evaluate_fns():
+    import hooks
+    import linear_spec as ls
+    types = [(IXC, 'struct nv_ixr')] + ls.LTYPES
+    calls = [(r'^ctor\|nano::targets_iterator_t\|', 'nv_fiter_make_r({1})'),
+             (r'^ctor\|nano::tensor_t<nano::tensor_carray_storage_t, double, 4>\|void \(const tensor_t<nano::tensor_vector_storage_t, double, 4', '{0}')] + ls.LCALLS
+    members = [(r'^slice\|nano::tensor_t<nano::tensor_carray_storage_t, long, 1', 'nv_ixr_slice({obj}, {0})'), (r'^predict\|.*#2', 'nv_learner_predict2({self}, {1})'),
+               (r'^size\|.*(indices_cmap_t|tensor_carray_storage_t, long, 1|tensor_base_t<long, 1)', '({obj}.n)')] + ls.LMEMBERS
+    kw = dict(types=types, calls=calls, members=members, opaque=ls.LOPAQUE, self_struct='struct nv_learner',
+              hooks=[hooks.lambda_stub_hook('loop', 'nv_le_loop', ['learner_evaluate_chunk'], LE_LOOP, member=True)])
+    return [Fn('learner_evaluate', 'src/learner.cpp', 'evaluate', flt='learner_t::evaluate', **kw),
+            Fn('learner_evaluate_chunk', 'src/learner.cpp', 'evaluate', flt='learner_t::evaluate', lambda_index=0, captures=True, **kw)]
+
+
 def percentile_fn():
     VM = r'^nano::tensor1d_map_t$|^nano::tensor_t<nano::tensor_marray_storage_t, double, 1'
     return Fn('stats_percentile', 'src/machine/stats.cpp', 'percentile', flt='percentile', select=NPARAMS(2), ret='double', uf_float=False,
@@ -260,6 +300,7 @@ def targets(tier):
     lin.append(Target('gmodel_fit_callback', gboost_callback_fns, 'specs/C11/gcallback.h', enforce='gmodel_fit_callback', replace=['gboost_fit']))
     lin.append(Target('gboost_tune_task', gboost_callback_fns, 'specs/C11/gtuned.h', enforce_none=True, harness=GTUNED, replace=['gmodel_fit_callback'], loops=0,
                       note='composition: one ml::tune task by the clauses C13 proves + the real callback through its proved contract'))
+    lin.append(Target('learner_evaluate', learner_evaluate_fns, 'specs/C11/levaluate.h', enforce='learner_evaluate', enums=EN, loops=1))
     lin.append(Target('stats_percentile', lambda: [percentile_fn()], 'specs/C11/stats.h', enforce='stats_percentile'))
     return lin + [Target('gmodel_do_predict', lambda: [gboost_predict_fn()], P, enforce='gmodel_do_predict'),
             Target('learner_predict3', lambda: [learner_fns()['p3']], P, enforce='learner_predict3'),
